@@ -30,6 +30,17 @@ THEOREMS = [
     "SqlglotModel.Properties.C10.normalize_requote_stable",
     "SqlglotModel.Properties.C10.generated_fold_table_ok",
     "SqlglotModel.Properties.C10.generated_pipeline_ok",
+    "SqlglotModel.Properties.C10.qualify_complete",
+    "SqlglotModel.Properties.C10.qualify_complete_all",
+    "SqlglotModel.Properties.C10.star_expansion_schema_order",
+    "SqlglotModel.Properties.C10.star_order_tables_first_witness",
+    "SqlglotModel.Properties.C10.unresolved_raises",
+    "SqlglotModel.Properties.C10.unresolved_raises_witnesses",
+    "SqlglotModel.Properties.C10.qualify_idempotent_partial",
+    "SqlglotModel.Properties.C10.qualify_idempotent_all_partial",
+    "SqlglotModel.Properties.C10.output_names_partial",
+    "SqlglotModel.Properties.C10.alias_ref_projection_renamed_counterexample",
+    "SqlglotModel.Properties.C10.having_bare_counterexample",
 ]
 
 FLAGS = ["PREFER_CTE_ALIAS_COLUMN", "FORCE_EARLY_ALIAS_REF_EXPANSION", "EXPAND_ONLY_GROUP_ALIAS_REF",
@@ -640,7 +651,7 @@ def run_real(sql, schema, dialect):
 
         msg = str(e)
         if " is not <class " in msg:
-            msg = "is not " + msg.split(" is not <class ")[-1].split(".")[-1]
+            msg = "is not " + msg.split(" is not <class ")[-1].rstrip(".'> ").split(".")[-1]
         cls = type(e).__name__ + ":" + "-".join(_re.sub(r"[^A-Za-z ]+", " ", msg).split()[:4])
         return {"status": "other", "msg": f"{type(e).__name__}: {str(e)[:160]}", "tree": tree, "cls": cls}
     return {"status": "ok", "tree": tree, "q1": q1}
@@ -804,8 +815,12 @@ def oracle(sql, nested_schema, dialect):
                 for k in set(x.args) | set(y.args):
                     if k in ("from_", "joins", "with_"):
                         continue
-                    if x.args.get(k) != y.args.get(k):
-                        clauses.add(k)
+                    xv, yv = x.args.get(k), y.args.get(k)
+                    if xv != yv:
+                        nested = any(isinstance(v, exp.Expr) and v.find(exp.Select) is not None
+                                     for v in (xv if isinstance(xv, list) else [xv]))
+                        if not nested:
+                            clauses.add(k)
         return ("not-idempotent:" + ",".join(sorted(clauses)), f"second qualify changed the query: {s1!r} -> {s2!r}")
     d = Dialect.get_or_raise(dialect)
     ms = MappingSchema(nested_schema, dialect=dialect)
@@ -832,6 +847,12 @@ def oracle(sql, nested_schema, dialect):
                 if c.name in outs:
                     kind += "-output-name"
                 return (kind, f"column {c.sql(dialect=dialect)} is left without a source in {s1!r}")
+    # a CTE whose body mentions a table of its own name (base table shadowed by the CTE being defined): which
+    # object the inner name denotes is engine-specific; star / output-name expectations are not applied there
+    for cte in tree.find_all(exp.CTE):
+        if any(tb.name and d.normalize_identifier(tb.this.copy()).name == d.normalize_identifier(cte.args["alias"].this.copy()).name
+               for tb in cte.this.find_all(exp.Table) if isinstance(tb.this, exp.Identifier)):
+            return None
     # stars and output names, select by select
     sels0, sels1 = select_nodes(tree), select_nodes(q1)
     if len(sels0) != len(sels1):
@@ -947,7 +968,10 @@ def oracle(sql, nested_schema, dialect):
                 else:
                     reordered.append(None)
             flat_expected = [n for _, n in expected]
-            if len(got) == len(flat_expected) and got != flat_expected and all(r is None or r == g for r, g in zip(_align(reordered, s0, srcmap, d, exp), got)):
+            aligned = _align(reordered, s0, srcmap, d, exp)
+            nout = len(outer_cols)
+            if len(got) == len(flat_expected) and got[nout:] != flat_expected[nout:] and \
+                    all(i < nout or r is None or r == g for i, (r, g) in enumerate(zip(aligned, got))):
                 return ("star-expansion-order-derived-after-tables", f"SELECT * lists the tables' columns before the derived tables' "
                         f"although the derived table comes first in FROM: got {got}, FROM order gives {flat_expected} in {s1!r}")
         if len(got) != len(expected):
@@ -1268,7 +1292,7 @@ def consider(chk: Check, sql, schema, dialect, stats):
     res2 = oracle(small, schema, dialect) or res
     key = kind + "|" + skeleton(small, dialect)
     chk.report_violation(key, res2[1], {"sql": small, "schema": schema, "dialect": dialect, "original_sql": sql},
-                         context={"kind": kind})
+                         context={"kind": kind, "dialect": dialect or ""})
 
 
 def search_idents(chk: Check):
